@@ -14,9 +14,10 @@ from checks import scenarios as S
 PROP = "C11"
 LEVEL = "proof"
 THEOREMS = {"Proofs.Props.C11": ["MsPack.C11.mszip_init_fill_independent", "MsPack.C11.initDec_fill_independent", "MsPack.C11.cab_stored_mszip_fill_independent"],
-            "Proofs.Props.C11Decoders": ["MsPack.C11.C11_lzh_fill_independent", "MsPack.C11.C11_lzx_fill_independent", "MsPack.C11.C11_qtm_fill_independent"]}
+            "Proofs.Props.C11Decoders": ["MsPack.C11.C11_lzh_fill_independent", "MsPack.C11.C11_lzx_fill_independent", "MsPack.C11.C11_qtm_fill_independent"],
+            "Proofs.Props.C11CabExtract": ["MsPack.CabFill.decompress_R", "MsPack.CabFill.C11_cab_extract_fill_independent", "MsPack.CabFill.C11_cab_session_fill_independent"]}
 ASSUMPTIONS = ["fill-independence is proved on the models: the LZSS decoder (its ring is memset), stored and MSZIP CAB folders, and - for every source, every fuel and every sequence of calls (LZX: decompress / set_output_length / set_reference_data in any order) - the KWAJ LZH, LZX and Quantum decoders: status and bytes written are the same for any two fill bytes (simulation relations over the cells that differ: un-cleared parts of length arrays, blockLength before the first header, the E8 buffer beyond what was produced, adaptive-model tails); "
-               "the lift of the LZX/Quantum theorems through cabd_extract, and OAB/CHM, are validated by the four-fill oracle, MSan and model agreement",
+               "END TO END for CAB (C11CabExtract): for every set of files, every parameter record, every list of members and ANY two fill bytes, a session of extract() calls threaded through the decoder cache from a fresh decompressor shows the caller the same statuses and the same bytes (C11_cab_session_fill_independent) - stored, MSZIP, Quantum and LZX folders, no side condition (the Quantum simulation relation had to be strengthened to keep the input handles equal after a status return: cabd reads read_error from the feeder); OAB/CHM: validated by the four-fill oracle, MSan and model agreement",
                "MSan observes definedness at write(), branches and callback arguments"]
 RULE = ("well-formed and malformed archives of all five formats (4-6 mutations each) plus directed constructions (a match before the first byte of the stream for MSZIP / Quantum / LZX, "
         "LZSS matches into the ring at/ahead of the initial write position (SZDD, QBasic, KWAJ), LZH code-length type nibbles 4-15, truncated LZH tables, short KWAJ files, CAB members declared longer than their folder's blocks hold), each run under 4 fill bytes and under MSan; non-trivial = a case that produced output or an error status; distinct by archive bytes")
